@@ -3,7 +3,7 @@ import vlib
 CFG = dict(
     imports=["From Verif.Common Require Import Prefix.", "From Verif.C36 Require Import Model Spec IpLpm."],
     checker="check_xcase",
-    n=dict(quick=240, thorough=12000),
+    n=dict(quick=240, thorough=2880),
     shard=25,
     rule="every fourth case: real calc.IpTrie (iplpm.go), 10-35 ops InsertKey/DeleteKey/GetKeys/GetLongestPrefixCidr/"
          "GetLongestPrefixCidrWithNamespaceIsolation over 3-9 keys, non-trivial = two live (cidr,key) pairs or a multi-key CIDR seen; "
